@@ -464,7 +464,8 @@ fn main() {
                     let mut lines = vec![];
                     // model values first, then a few random assignments: a failed polynomial identity fails generically
                     for (k, m) in [(0u64, model.clone()), (1, HashMap::new()), (2, HashMap::new()), (3, HashMap::new())] {
-                        let (p_ok, v_ok, _) = scen_r1cs::replay_plain::<Secq>(&shape, &err, seed + k, cp, cv, m);
+                        let (p_ok, v_ok, hon) = scen_r1cs::replay_plain::<Secq>(&shape, &err, seed + k, cp, cv, m);
+                        let expect = if hon == 3 { true } else if hon == 2 { false } else { expect };
                         let wrong = !p_ok || v_ok != expect;
                         lines.push(format!("native secq256k1 run {} ({}): prove_ok={} verify_ok={} expected_verify_ok={} -> {}", k, if k == 0 { "solver model" } else { "random values" }, p_ok, v_ok, expect, if wrong { "WRONG VERDICT" } else { "as expected" }));
                         any_wrong |= wrong;
